@@ -36,6 +36,10 @@ const (
 	kUParam   // URLParam
 	kUParamPtr // *URLParam
 	kPairs    // url.Values, map[string]string: association lists
+	kJsVal    // js.Value
+	kJsList   // []js.Value
+	kJsType   // js.Type: its name
+	kAny      // any: what a callback hands to JavaScript
 	kOther
 )
 
@@ -62,6 +66,14 @@ func (t *tr) kindOf(ty types.Type) kind {
 			return kUParam
 		case pk == "net/url" && n == "Values":
 			return kPairs
+		case pk == "syscall/js" && n == "Value":
+			return kJsVal
+		case pk == "syscall/js" && n == "Type":
+			return kJsType
+		case pk == "github.com/ja7ad/otp" && n == "URLParam":
+			return kUParam
+		case pk == "github.com/ja7ad/otp" && (n == "Digits" || n == "Algorithm"):
+			return kU8
 		case n == "error" && u.Obj().Pkg() == nil:
 			return kErr
 		}
@@ -93,6 +105,9 @@ func (t *tr) kindOf(ty types.Type) kind {
 		}
 		if b, ok := u.Elem().Underlying().(*types.Basic); ok && b.Kind() == types.String {
 			return kStrList
+		}
+		if n, ok := u.Elem().(*types.Named); ok && n.Obj().Name() == "Value" && n.Obj().Pkg() != nil && n.Obj().Pkg().Path() == "syscall/js" {
+			return kJsList
 		}
 	case *types.Array:
 		if b, ok := u.Elem().Underlying().(*types.Basic); ok && b.Kind() == types.Uint8 {
@@ -146,6 +161,9 @@ func (t *tr) kindOf(ty types.Type) kind {
 		if u.NumMethods() == 1 && u.Method(0).Name() == "Error" {
 			return kErr
 		}
+		if u.NumMethods() == 0 {
+			return kAny
+		}
 	case *types.Tuple:
 		if u.Len() == 0 {
 			return kUnit
@@ -179,7 +197,18 @@ func (t *tr) coqType(n ast.Node, ty types.Type) string {
 	case kBytes:
 		return "bytes"
 	case kErr:
+		if t.mainMode {
+			return "(option bytes)"
+		}
 		return "(option err)"
+	case kJsVal:
+		return "jsval"
+	case kJsList:
+		return "(list jsval)"
+	case kJsType:
+		return "bytes"
+	case kAny:
+		return "wres"
 	case kParamPtr:
 		return "(option param)"
 	case kParam:
